@@ -17,8 +17,8 @@ from .wire import ENGINE_CLS, LINKVSL, NET
 
 class CompileWorld(GWorld):
     def __init__(self, prog: Program, sym_type: str = "SX", decisions=()):
-        super().__init__(prog, "casadi", decisions)
         self.sym_type = sym_type
+        super().__init__(prog, "casadi", decisions)
         self.scan_only = False
         self.vsl_len: dict = {}
 
@@ -60,8 +60,6 @@ class CompileWorld(GWorld):
                 return _Const(1)
             if attr == "name":
                 return _Const("sym")
-        if isinstance(o, Obj) and o.kind == "engine" and attr == "sym_type":
-            return Obj("casadi:" + self.sym_type, self.sym_type, {"__name__": self.sym_type}, kind="symtype")
         return GWorld.getattr(self, it, o, attr, node)
 
     def call_ext(self, it, name, args, kwargs, node):
